@@ -177,6 +177,85 @@ Fixpoint translate_from (defd : list id) (p : body) : list stmt :=
 
 Definition translate (p : body) : list stmt := translate_from [] p.
 
+(* ---- ExpressionInterpreter's function table ------------------------------------------------ *)
+(* The generated programs carry the REFERENCE meaning of every intrinsic: NM-TRAN's MOD is the
+   Fortran remainder (sign of the dividend), function symbol F_FMOD.  ExpressionInterpreter.mod
+   returns sympy.Mod, the floored modulo (sign of the divisor), function symbol F_MOD of
+   Base/Interp.v.  All other intrinsics are mapped to functions of the same meaning (INT to
+   sign*floor(abs), the protected functions to the Piecewise of their definition), which the
+   correspondence checks by evaluation. *)
+Definition F_FMOD : id := 20%positive.
+Definition read_fn2 (f : id) : id := if Pos.eqb f F_FMOD then F_MOD else f.
+
+Fixpoint read_expr (e : expr) : expr :=
+  match e with
+  | Num q => Num q
+  | Sym s => Sym s
+  | Fn1 f a => Fn1 f (read_expr a)
+  | Fn2 f a b => Fn2 (read_fn2 f) (read_expr a) (read_expr b)
+  | Add a b => Add (read_expr a) (read_expr b)
+  | Mul a b => Mul (read_expr a) (read_expr b)
+  | Neg a => Neg (read_expr a)
+  | Div a b => Div (read_expr a) (read_expr b)
+  | PwNil => PwNil
+  | PwCons c a rest => PwCons (read_cond c) (read_expr a) (read_expr rest)
+  end
+with read_cond (c : cond) : cond :=
+  match c with
+  | CTrue => CTrue
+  | CFalse => CFalse
+  | CRel o a b => CRel o (read_expr a) (read_expr b)
+  | CAnd a b => CAnd (read_cond a) (read_cond b)
+  | COr a b => COr (read_cond a) (read_cond b)
+  | CNot a => CNot (read_cond a)
+  end.
+
+Fixpoint read_stmt (s : nmstmt) : nmstmt :=
+  match s with
+  | NAssign x e => NAssign x (read_expr e)
+  | NIf c x e => NIf (read_cond c) x (read_expr e)
+  | NBlock brs els => NBlock (read_branches brs) (read_body els)
+  end
+with read_body (b : body) : body :=
+  match b with BNil => BNil | BCons s tl => BCons (read_stmt s) (read_body tl) end
+with read_branches (brs : branches) : branches :=
+  match brs with BrNil => BrNil | BrCons c b tl => BrCons (read_cond c) (read_body b) (read_branches tl) end.
+
+(* the whole reading of a code record: interpret the expressions, then build the statements *)
+Definition read_code (p : body) : list stmt := translate (read_body p).
+
+(* g_no_mod: the program does not call MOD *)
+Fixpoint uses_fn2 (f : id) (e : expr) : bool :=
+  match e with
+  | Num _ | Sym _ | PwNil => false
+  | Fn1 _ a | Neg a => uses_fn2 f a
+  | Fn2 g a b => Pos.eqb g f || uses_fn2 f a || uses_fn2 f b
+  | Add a b | Mul a b | Div a b => uses_fn2 f a || uses_fn2 f b
+  | PwCons c a rest => uses_fn2c f c || uses_fn2 f a || uses_fn2 f rest
+  end
+with uses_fn2c (f : id) (c : cond) : bool :=
+  match c with
+  | CTrue | CFalse => false
+  | CRel _ a b => uses_fn2 f a || uses_fn2 f b
+  | CAnd a b | COr a b => uses_fn2c f a || uses_fn2c f b
+  | CNot a => uses_fn2c f a
+  end.
+
+Fixpoint mod_free_stmt (s : nmstmt) : bool :=
+  match s with
+  | NAssign _ e => negb (uses_fn2 F_FMOD e)
+  | NIf c _ e => negb (uses_fn2c F_FMOD c) && negb (uses_fn2 F_FMOD e)
+  | NBlock brs els => mod_free_branches brs && mod_free_body els
+  end
+with mod_free_body (b : body) : bool :=
+  match b with BNil => true | BCons s tl => mod_free_stmt s && mod_free_body tl end
+with mod_free_branches (brs : branches) : bool :=
+  match brs with
+  | BrNil => true
+  | BrCons c b tl => negb (uses_fn2c F_FMOD c) && mod_free_body b && mod_free_branches tl
+  end.
+Definition g_no_mod (p : body) : bool := mod_free_body p.
+
 (* ------------------------------------------------------------------------------------------ *)
 (* 3. guards                                                                                   *)
 Fixpoint assigned_stmt (s : nmstmt) : list id :=
@@ -250,3 +329,345 @@ Definition guard_code (p : body) : bool := g_flat p && g_once p && g_cond_fresh 
 (* the initial environment gives no value to a symbol the program assigns (THETA, ETA, EPS and
    data items are never assigned) *)
 Definition fresh_env (r : env) (p : body) : Prop := forall v, In v (assigned_body p) -> r v = None.
+
+(* ------------------------------------------------------------------------------------------ *)
+(* 4. ADVAN / TRANS: NONMEM's definitions (SPECIFICATION, written from the NONMEM users guide,  *)
+(*    PREDPP: "ADVANn", "TRANSn").  The code side (trans_table, advan_flows, advan_struct) is   *)
+(*    regenerated from advan.py by harness/props/c01_tadvan.py on every run.                    *)
+Inductive advan := A1 | A2 | A3 | A4 | A10 | A11 | A12.
+Inductive trans := T1 | T2 | T3 | T4 | T5 | T6.
+Inductive cname := CENTRAL | DEPOT | PERIPHERAL | PERIPHERAL1 | PERIPHERAL2 | OUTPUT.
+
+Definition cname_eqb (a b : cname) : bool :=
+  match a, b with
+  | CENTRAL, CENTRAL | DEPOT, DEPOT | PERIPHERAL, PERIPHERAL | PERIPHERAL1, PERIPHERAL1
+  | PERIPHERAL2, PERIPHERAL2 | OUTPUT, OUTPUT => true
+  | _, _ => false
+  end.
+
+(* symbols of the PK parameters (ids mirrored in harness/props/c01_tadvan.py: PK_SYMS; the
+   generated file re-checks the numbering) *)
+Definition s_K : id := 101%positive.     Definition s_KA : id := 102%positive.
+Definition s_K12 : id := 103%positive.   Definition s_K21 : id := 104%positive.
+Definition s_K13 : id := 105%positive.   Definition s_K31 : id := 106%positive.
+Definition s_K23 : id := 107%positive.   Definition s_K32 : id := 108%positive.
+Definition s_K24 : id := 109%positive.   Definition s_K42 : id := 110%positive.
+Definition s_CL : id := 111%positive.    Definition s_V : id := 112%positive.
+Definition s_Q : id := 113%positive.     Definition s_VSS : id := 114%positive.
+Definition s_V1 : id := 115%positive.    Definition s_V2 : id := 116%positive.
+Definition s_V3 : id := 117%positive.    Definition s_V4 : id := 118%positive.
+Definition s_Q2 : id := 119%positive.    Definition s_Q3 : id := 120%positive.
+Definition s_Q4 : id := 121%positive.    Definition s_AOB : id := 122%positive.
+Definition s_ALPHA : id := 123%positive. Definition s_BETA : id := 124%positive.
+Definition s_GAMMA : id := 125%positive. Definition s_VM : id := 126%positive.
+Definition s_KM : id := 127%positive.
+(* amounts A_<NAME>(t) *)
+Definition s_A_CENTRAL : id := 131%positive.     Definition s_A_DEPOT : id := 132%positive.
+Definition s_A_PERIPHERAL : id := 133%positive.  Definition s_A_PERIPHERAL1 : id := 134%positive.
+Definition s_A_PERIPHERAL2 : id := 135%positive.
+(* scaling, lag, bioavailability *)
+Definition s_SC : id := 140%positive.
+Definition s_S (n : nat) : id := Pos.of_nat (140 + n).        (* S1 .. S5 : 141 .. 145; S0 : 150 *)
+Definition s_S0 : id := 150%positive.
+Definition s_ALAG (n : nat) : id := Pos.of_nat (150 + n).     (* 151 .. 155 *)
+Definition s_F (n : nat) : id := Pos.of_nat (160 + n).        (* 161 .. 165 *)
+
+Definition amount_of (c : cname) : id :=
+  match c with
+  | CENTRAL => s_A_CENTRAL | DEPOT => s_A_DEPOT | PERIPHERAL => s_A_PERIPHERAL
+  | PERIPHERAL1 => s_A_PERIPHERAL1 | PERIPHERAL2 => s_A_PERIPHERAL2 | OUTPUT => 1%positive
+  end.
+
+Definition Sub (a b : expr) : expr := Add a (Neg b).
+Definition V (s : id) : expr := Sym s.
+
+(* a flow: (from compartment number, to compartment number (0 = output), rate constant) *)
+Definition flow := (nat * nat * expr)%type.
+
+(* the input parameters of each TRANS (what $PK has to define) *)
+Definition trans_inputs (a : advan) (t : trans) : option (list id) :=
+  match a, t with
+  | A1, T1 => Some [s_K]
+  | A1, T2 => Some [s_CL; s_V]
+  | A2, T1 => Some [s_K; s_KA]
+  | A2, T2 => Some [s_CL; s_V; s_KA]
+  | A3, T1 => Some [s_K; s_K12; s_K21]
+  | A3, T3 => Some [s_CL; s_V; s_Q; s_VSS]
+  | A3, T4 => Some [s_CL; s_V1; s_Q; s_V2]
+  | A3, T5 => Some [s_AOB; s_ALPHA; s_BETA]
+  | A3, T6 => Some [s_ALPHA; s_BETA; s_K21]
+  | A4, T1 => Some [s_K; s_K23; s_K32; s_KA]
+  | A4, T3 => Some [s_CL; s_V; s_Q; s_VSS; s_KA]
+  | A4, T4 => Some [s_CL; s_V2; s_Q; s_V3; s_KA]
+  | A4, T5 => Some [s_AOB; s_ALPHA; s_BETA; s_KA]
+  | A4, T6 => Some [s_ALPHA; s_BETA; s_K32; s_KA]
+  | A10, T1 => Some [s_VM; s_KM]
+  | A11, T1 => Some [s_K; s_K12; s_K21; s_K13; s_K31]
+  | A11, T4 => Some [s_CL; s_V1; s_Q2; s_V2; s_Q3; s_V3]
+  | A11, T6 => Some [s_ALPHA; s_BETA; s_GAMMA; s_K21; s_K31]
+  | A12, T1 => Some [s_K; s_K23; s_K32; s_K24; s_K42; s_KA]
+  | A12, T4 => Some [s_CL; s_V2; s_Q3; s_V3; s_Q4; s_V4; s_KA]
+  | A12, T6 => Some [s_ALPHA; s_BETA; s_GAMMA; s_K32; s_K42; s_KA]
+  | _, _ => None                               (* not a TRANS of that ADVAN *)
+  end.
+
+(* two-compartment micro constants from the TRANS parameters; c = central, p = peripheral *)
+Definition two_cmt (t : trans) (kcp_in kpc_in vc vp : id) : option (expr * expr * expr) :=   (* K, Kcp, Kpc *)
+  match t with
+  | T1 => Some (V s_K, V kcp_in, V kpc_in)
+  | T3 => Some (Div (V s_CL) (V s_V), Div (V s_Q) (V s_V), Div (V s_Q) (Sub (V s_VSS) (V s_V)))
+  | T4 => Some (Div (V s_CL) (V vc), Div (V s_Q) (V vc), Div (V s_Q) (V vp))
+  | T5 => let kpc := Div (Add (Mul (V s_AOB) (V s_BETA)) (V s_ALPHA)) (Add (V s_AOB) (Num 1)) in
+          let k := Div (Mul (V s_ALPHA) (V s_BETA)) kpc in
+          Some (k, Sub (Sub (Add (V s_ALPHA) (V s_BETA)) kpc) k, kpc)
+  | T6 => let kpc := V kpc_in in
+          let k := Div (Mul (V s_ALPHA) (V s_BETA)) kpc in
+          Some (k, Sub (Sub (Add (V s_ALPHA) (V s_BETA)) kpc) k, kpc)
+  | T2 => None
+  end.
+
+(* three-compartment micro constants; inputs of TRANS6: ALPHA BETA GAMMA and the two return constants *)
+Definition three_cmt (t : trans) (k12 k21 k13 k31 vc q2 v2 q3 v3 : id)
+  : option (expr * expr * expr * expr * expr) :=                      (* K, K12, K21, K13, K31 *)
+  match t with
+  | T1 => Some (V s_K, V k12, V k21, V k13, V k31)
+  | T4 => Some (Div (V s_CL) (V vc), Div (V q2) (V vc), Div (V q2) (V v2), Div (V q3) (V vc), Div (V q3) (V v3))
+  | T6 =>
+      let al := V s_ALPHA in let be := V s_BETA in let ga := V s_GAMMA in
+      let r21 := V k21 in let r31 := V k31 in
+      let sum := Add (Add al be) ga in
+      let prod2 := Add (Add (Mul al be) (Mul al ga)) (Mul be ga) in
+      let k := Div (Mul (Mul al be) ga) (Mul r21 r31) in
+      let r13 := Div (Sub (Sub (Add prod2 (Mul r31 r31)) (Mul r31 sum)) (Mul k r21)) (Sub r21 r31) in
+      let r12 := Sub (Sub (Sub (Sub sum k) r13) r21) r31 in
+      Some (k, r12, r21, r13, r31)
+  | _ => None
+  end.
+
+Definition nonmem_flows (a : advan) (t : trans) : option (list flow) :=
+  match a with
+  | A1 => match t with
+          | T1 => Some [(1, 0, V s_K)]
+          | T2 => Some [(1, 0, Div (V s_CL) (V s_V))]
+          | _ => None end
+  | A2 => match t with
+          | T1 => Some [(1, 2, V s_KA); (2, 0, V s_K)]
+          | T2 => Some [(1, 2, V s_KA); (2, 0, Div (V s_CL) (V s_V))]
+          | _ => None end
+  | A3 => match two_cmt t s_K12 s_K21 s_V1 s_V2 with
+          | Some (k, k12, k21) => Some [(1, 0, k); (1, 2, k12); (2, 1, k21)]
+          | None => None end
+  | A4 => match two_cmt t s_K23 s_K32 s_V2 s_V3 with
+          | Some (k, k23, k32) => Some [(1, 2, V s_KA); (2, 0, k); (2, 3, k23); (3, 2, k32)]
+          | None => None end
+  | A10 => match t with
+           | T1 => Some [(1, 0, Div (V s_VM) (Add (V s_KM) (V s_A_CENTRAL)))]
+           | _ => None end
+  | A11 => match three_cmt t s_K12 s_K21 s_K13 s_K31 s_V1 s_Q2 s_V2 s_Q3 s_V3 with
+           | Some (k, k12, k21, k13, k31) => Some [(1, 0, k); (1, 2, k12); (2, 1, k21); (1, 3, k13); (3, 1, k31)]
+           | None => None end
+  | A12 => match three_cmt t s_K23 s_K32 s_K24 s_K42 s_V2 s_Q3 s_V3 s_Q4 s_V4 with
+           | Some (k, k23, k32, k24, k42) =>
+               Some [(1, 2, V s_KA); (2, 0, k); (2, 3, k23); (3, 2, k32); (2, 4, k24); (4, 2, k42)]
+           | None => None end
+  end.
+
+(* compartment numbering, default dose and default observation compartment *)
+Record astruct := mkStruct {
+  st_map : list (cname * nat);
+  st_dose : nat;
+  st_obs : nat
+}.
+
+Definition nonmem_struct (a : advan) : astruct :=
+  match a with
+  | A1 | A10 => mkStruct [(CENTRAL, 1); (OUTPUT, 2)] 1 1
+  | A2 => mkStruct [(DEPOT, 1); (CENTRAL, 2); (OUTPUT, 3)] 1 2
+  | A3 => mkStruct [(CENTRAL, 1); (PERIPHERAL, 2); (OUTPUT, 3)] 1 1
+  | A4 => mkStruct [(DEPOT, 1); (CENTRAL, 2); (PERIPHERAL, 3); (OUTPUT, 4)] 1 2
+  | A11 => mkStruct [(CENTRAL, 1); (PERIPHERAL1, 2); (PERIPHERAL2, 3); (OUTPUT, 4)] 1 1
+  | A12 => mkStruct [(DEPOT, 1); (CENTRAL, 2); (PERIPHERAL1, 3); (PERIPHERAL2, 4); (OUTPUT, 5)] 1 2
+  end.
+
+(* what the translator reads off one `if advan == ...` branch of _compartmental_model *)
+Record comp_decl := mkComp {
+  cd_name : cname;
+  cd_dose : option nat;      (* find_dose(doses, comp_number=n); None for doses=tuple() *)
+  cd_alag : nat;             (* _get_alag(control_stream, n) *)
+  cd_bio : nat               (* _get_bioavailability(control_stream, n) *)
+}.
+Record code_struct := mkCode {
+  cs_comps : list comp_decl;           (* in add_compartment order *)
+  cs_map : list (cname * nat);         (* comp_map *)
+  cs_defdose : nat;                    (* dosing(di, dataset, n) *)
+  cs_obs : cname * nat                 (* _f_link_assignment(..., compartment, n) *)
+}.
+
+Fixpoint map_lookup (m : list (cname * nat)) (c : cname) : option nat :=
+  match m with
+  | [] => None
+  | (k, n) :: tl => if cname_eqb k c then Some n else map_lookup tl c
+  end.
+
+Definition onat_eqb (a b : option nat) : bool :=
+  match a, b with Some x, Some y => Nat.eqb x y | None, None => true | _, _ => false end.
+
+Definition map_eqb (a b : list (cname * nat)) : bool :=
+  list_eqb (fun p q => cname_eqb (fst p) (fst q) && Nat.eqb (snd p) (snd q)) a b.
+
+(* the code's structure implements NONMEM's: same numbering; every declared compartment uses its
+   own number for ALAGn / Fn / the dose lookup; default dose and observation compartments agree *)
+Definition struct_ok (c : code_struct) (s : astruct) : bool :=
+  map_eqb (cs_map c) (st_map s) &&
+  forallb (fun d => match map_lookup (cs_map c) (cd_name d) with
+                    | Some n => Nat.eqb (cd_alag d) n && Nat.eqb (cd_bio d) n &&
+                                match cd_dose d with Some k => Nat.eqb k n | None => true end
+                    | None => false
+                    end) (cs_comps c) &&
+  Nat.eqb (length (cs_comps c) + 1) (length (cs_map c)) &&
+  Nat.eqb (cs_defdose c) (st_dose s) &&
+  onat_eqb (map_lookup (cs_map c) (fst (cs_obs c))) (Some (snd (cs_obs c))) &&
+  Nat.eqb (snd (cs_obs c)) (st_obs s) &&
+  (* the default dose compartment can receive a dose *)
+  existsb (fun d => onat_eqb (cd_dose d) (Some (st_dose s))) (cs_comps c).
+
+(* flows as a canonical (sorted by from, to) list, compared by evaluation *)
+Definition flow_key_ltb (a b : flow) : bool :=
+  let '(i, j, _) := a in let '(k, l, _) := b in (i <? k) || ((i =? k) && (j <? l)).
+Fixpoint insert_flow (f : flow) (l : list flow) : list flow :=
+  match l with
+  | [] => [f]
+  | g :: tl => if flow_key_ltb f g then f :: l else g :: insert_flow f tl
+  end.
+Definition sort_flows (l : list flow) : list flow := fold_right insert_flow [] l.
+
+Definition eval_flows (r : env) (fi : finterp) (l : list flow) : list (nat * nat * option Q) :=
+  map (fun f => (fst (fst f), snd (fst f), eval r fi (snd f))) (sort_flows l).
+
+(* TRANS choices for which the code's table is claimed correct; TRANS5 / TRANS6 are excluded
+   (their expressions mention rate constants nothing defines: finding C01-TRANS56-UNDEFINED) *)
+Definition supported (a : advan) (t : trans) : bool :=
+  match trans_inputs a t, t with
+  | Some _, T5 | Some _, T6 => false
+  | Some _, _ => true
+  | None, _ => false
+  end.
+
+(* the environment defines exactly the TRANS inputs (and the amounts) *)
+Definition only_inputs (a : advan) (t : trans) (m : list (id * Q)) : bool :=
+  match trans_inputs a t with
+  | Some ins => forallb (fun p => memp (fst p) (s_A_CENTRAL :: ins)) m &&
+                forallb (fun x => existsb (fun p => Pos.eqb (fst p) x) m) ins
+  | None => false
+  end.
+
+(* ------------------------------------------------------------------------------------------ *)
+(* 5. _find_rates: the name of a rate constant in $PK of a general linear model (ADVAN5/7)      *)
+(*    K{i}{j} with one digit each, K{i}T{j}, three digits by the ambiguity rule, four digits    *)
+(*    two and two; "to 0" means the output compartment ncomps.                                  *)
+Inductive rate_name :=
+| RPlain (digits : list nat)          (* K followed by decimal digits *)
+| RT (from to : nat).                 (* K<from>T<to> *)
+
+Inductive rate_res := RFlow (from to : nat) | RSkip | RAmbiguous | RError.
+
+Definition num2 (a b : nat) : nat := 10 * a + b.
+
+Definition find_rate (n : rate_name) (ncomps : nat) : rate_res :=
+  let fin (f t : nat) := RFlow f (if t =? 0 then ncomps else t) in
+  match n with
+  | RT f t => fin f t
+  | RPlain [a; b] => fin a b
+  | RPlain [a; b; c] =>
+      let f1 := a in let t1 := num2 b c in
+      let f2 := num2 a b in let t2 := c in
+      let q1 := (f1 <=? ncomps) && (t1 <=? ncomps) && negb (t1 =? 0) in
+      let q2 := (f2 <=? ncomps) && (t2 <=? ncomps) in
+      if q1 && q2 then RAmbiguous
+      else if q1 then fin f1 t1
+      else if q2 then fin f2 t2
+      else RSkip
+  | RPlain [a; b; c; d] => fin (num2 a b) (num2 c d)
+  | RPlain _ => RError
+  end.
+
+(* how NM-TRAN writes the rate constant from compartment i to j (j = 0: output) when both are
+   below 10, and the always unambiguous T form *)
+Definition rate_name_short (i j : nat) : rate_name := RPlain [i; j].
+Definition rate_name_t (i j : nat) : rate_name := RT i j.
+
+(* the name NM-TRAN style code uses for the rate constant from compartment i to j (0 = output):
+   the decimal digits of i followed by those of j (i, j < 100) *)
+Definition digits_of (k : nat) : list nat := if k <? 10 then [k] else [k / 10; k mod 10].
+Definition rate_name_of (i j : nat) : rate_name := RPlain (digits_of i ++ digits_of j).
+
+(* the three-digit forms have a second reading; the name is usable when that reading is not a
+   valid pair of compartment numbers *)
+Definition unambiguous (i j n : nat) : bool :=
+  if (i <? 10) && (10 <=? j) then negb ((num2 i (j / 10) <=? n) && (j mod 10 <=? n))
+  else if (10 <=? i) && (j <? 10) then
+    negb ((i / 10 <=? n) && (num2 (i mod 10) j <=? n) && negb (num2 (i mod 10) j =? 0))
+  else true.
+
+(* ------------------------------------------------------------------------------------------ *)
+(* 6. parsing.py: parameters_from_blocks / rvs_from_blocks on the blocks returned by            *)
+(*    OmegaRecord.parse(): (names, inits, fix, same)  (names only matter for naming)            *)
+Record oblock := mkOB { ob_inits : list Q; ob_fix : bool; ob_same : bool }.
+Record oparam := mkOP { op_row : nat; op_col : nat; op_init : Q; op_fix : bool }.
+
+(* for i, name in enumerate(names): ... if row == col: row += 1; col = block_row  else: col += 1 *)
+Fixpoint walk (block_row row col : nat) (inits : list Q) (fx : bool) : list oparam * nat * nat :=
+  match inits with
+  | [] => ([], row, col)
+  | v :: tl =>
+      let next := if row =? col then (S row, block_row) else (row, S col) in
+      let '(ps, r, c) := walk block_row (fst next) (snd next) tl fx in
+      (mkOP row col v fx :: ps, r, c)
+  end.
+
+(* None = ModelSyntaxError("First ... block cannot be SAME") *)
+Fixpoint params_from (row col : nat) (prev : option nat) (bs : list oblock) : option (list oparam) :=
+  match bs with
+  | [] => Some []
+  | b :: tl =>
+      if ob_same b then
+        match prev with
+        | None => None
+        | Some k => params_from (row + k) (col + k) prev tl
+        end
+      else
+        let '(ps, r, c) := walk row row row (ob_inits b) (ob_fix b) in
+        option_map (app ps) (params_from r c (Some (r - row)) tl)
+  end.
+Definition parameters_from_blocks (bs : list oblock) : option (list oparam) := params_from 1 1 None bs.
+
+(* triangular_root(len(inits)) : the n with n(n+1)/2 = k (searched upwards; k is small) *)
+Fixpoint tri_root_from (fuel n k : nat) : nat :=
+  match fuel with
+  | 0 => n
+  | S f => if n * (n + 1) / 2 <? k then tri_root_from f (S n) k else n
+  end.
+Definition triangular_root (k : nat) : nat := tri_root_from k 0 k.
+
+Inductive level := IIV | IOV | RUV.
+(* one distribution: the eta numbers it covers, its level, and its covariance given as indices
+   into the parameter list (lower triangle, row by row); a SAME block repeats the previous one *)
+Record rvdist := mkRV { rv_etas : list nat; rv_level : level; rv_cov : list nat }.
+
+Definition next_same (tl : list oblock) : bool := match tl with b :: _ => ob_same b | [] => false end.
+
+Fixpoint rvs_from (is_eps : bool) (eta_index pidx n : nat) (prev_cov : list nat) (bs : list oblock) : list rvdist :=
+  match bs with
+  | [] => []
+  | b :: tl =>
+      let n' := if ob_same b then n else triangular_root (length (ob_inits b)) in
+      let lvl := if is_eps then RUV else if ob_same b || next_same tl then IOV else IIV in
+      let cov := if ob_same b then prev_cov else seq pidx (length (ob_inits b)) in
+      let pidx' := if ob_same b then pidx else pidx + length (ob_inits b) in
+      mkRV (seq eta_index n') lvl cov :: rvs_from is_eps (eta_index + n') pidx' n' cov tl
+  end.
+Definition rvs_from_blocks (is_eps : bool) (bs : list oblock) : list rvdist := rvs_from is_eps 1 0 0 [] bs.
+
+(* SPECIFICATION: the positions of a full lower triangle of size n whose first row is r0 *)
+Definition tri_positions (r0 n : nat) : list (nat * nat) :=
+  flat_map (fun i => map (fun j => (r0 + i, r0 + j)) (seq 0 (S i))) (seq 0 n).
